@@ -103,6 +103,16 @@ CHECKS += [
           "probes are replayed in rotated order across the 10-entry cache; first STANDARD applies before the first onset; TZID addressing; 13 malformed definitions must raise ValueError.",
   "note": "tzstr is the comparison zone (C08 vouches for it on these specs)."},
 ]
+CHECKS += [
+ {"id": "C18", "engine": "E2-history + E3-schedule",
+  "technique": "explicit-state BFS over request/drop/gc/clear/resize histories on the real factories + stateless preemption-bounded schedule exploration incl. stdlib weakref.py lines + exhaustive pairwise value laws",
+  "text": "E2: BFS (depth 5 quick / 7 thorough, pools of 3-10 keys incl. > strong-cache size) over get / drop / gc.collect / cache_clear / set_cache_size / nocache-instance operations on gettz, tzoffset "
+          "(int and timedelta spellings), tzstr and tzutc: a request must return the very object the harness still holds for that key (within a cache_clear epoch), fresh constructors equal but distinct objects; "
+          "an un-deduplicated DFS guards the canonical form. E3: every schedule (preemption bound 2; thorough 3 threads) of threads requesting the same key / A-B-A patterns with scheduling points at each "
+          "line of _factories.py, the gettz function object and weakref.py: no exception, no half-built zone, one object per key. Values: all ordered pairs of 23 zones for ==/!= symmetry and equal offsets, "
+          "copy/deepcopy/pickle 2-5 equal and identical in behaviour.",
+  "note": "Preemption inside a line / C code not modelled; identity demanded per cache_clear epoch (pinned by the suite); random schedules beyond the bound are not done; pickle protocols 0/1 excluded (CPython __slots__ rule)."},
+]
 _claimed = {c["id"] for c in CHECKS}
 NOT_APPLICABLE = [{"property_id": p, "reason": "check not built yet (work in progress; see DESIGN.md §5 build order)"}
                   for p in ALL if p not in _claimed]
